@@ -56,7 +56,17 @@ VARIABLES cell, pc, enc, res, text, content, modfile, loaded, src, uni, out
 vars == <<cell, pc, enc, res, text, content, modfile, loaded, src, uni, out>>
 
 None == "none"
-NoMod == [coding |-> None, lits |-> <<>>]
+NoMod == [coding |-> None, lits |-> <<>>, lines |-> <<>>]
+\* The head of a generated module file, line by line, as codegen.py write_toplevel lays it out for the Template
+\* options of the cell (cell.opt): the coding comment, then the `from __future__ import` line (future_imports), then
+\* statements (the mako imports, `imports=[...]`, the <%! %> code, ...).  Options that only change later statements
+\* (enable_loop, strict_undefined, default_filters, imports, a <%! %> block, a preprocessor) leave the head alone.
+HasFuture(c) == c.opt \in {"future1", "future2", "combo"}
+Lines(c) == <<"coding">> \o (IF HasFuture(c) THEN <<"future">> ELSE <<>>) \o <<"stmt">>
+\* Python (PEP 263) honours a coding comment on line 1, or on line 2 when line 1 is blank or a comment -- never after a
+\* statement; otherwise the file is read as UTF-8
+Honoured(lines) == \/ (Len(lines) >= 1 /\ lines[1] = "coding")
+                   \/ (Len(lines) >= 2 /\ lines[2] = "coding" /\ lines[1] \in {"comment", "blank"})
 Idx == 1..Len(cell.c)
 \* the body of the template as given: for bytes, each character encoded with the codec the author used
 Given(c) == [i \in 1..Len(c.c) |-> EncT[c.x][c.c[i]]]
@@ -110,12 +120,12 @@ WriteModule ==
   /\ LET lits == [i \in 1..Len(content) |-> EncT[Canon[enc]][content[i]]] IN
      IF \E i \in 1..Len(lits) : lits[i] = None
      THEN /\ res' = "exc:UnicodeEncodeError" /\ pc' = "raised" /\ UNCHANGED modfile
-     ELSE /\ modfile' = [coding |-> enc, lits |-> lits] /\ pc' = "import" /\ UNCHANGED res
+     ELSE /\ modfile' = [coding |-> enc, lits |-> lits, lines |-> Lines(cell)] /\ pc' = "import" /\ UNCHANGED res
 \* the import system decodes the file with the codec of ITS coding comment
 Import ==
   /\ pc \in {"import", "import2"}
   /\ UNCHANGED <<cell, enc, text, content, modfile, src, uni, out>>
-  /\ LET l == DecodeWith(modfile.coding, modfile.lits) IN
+  /\ LET l == DecodeWith(IF Honoured(modfile.lines) THEN modfile.coding ELSE "utf_8", modfile.lits) IN
      IF Fails(l) THEN /\ res' = "exc:SyntaxError" /\ pc' = "raised" /\ UNCHANGED loaded
      ELSE /\ loaded' = l /\ UNCHANGED res
           /\ pc' = (IF cell.path = "reload" /\ pc = "import" THEN "newproc" ELSE "source")
@@ -173,7 +183,7 @@ ErrorsExact == /\ (pc = "raised") => (res = "CompileException" /\ (Contradicted(
 SameTemplateAsDecodedText ==
   /\ (pc \in {"source", "renderu", "render", "done"}) => loaded = DecodedText(cell)
   /\ (pc \in {"renderu", "render", "done"}) => src = DecodedText(cell)
-  /\ (pc \in {"import", "import2", "newproc"}) => Canon[modfile.coding] = Canon[Declared(cell)]
+  /\ (pc \in {"import", "import2", "newproc"}) => (Canon[modfile.coding] = Canon[Declared(cell)] /\ Honoured(modfile.lines))
 RenderUnicodeIgnoresOutputEncoding == (pc \in {"render", "done"}) => uni = DecodedText(cell)
 RenderEncodes == (pc = "done") =>
       IF cell.oe = None THEN out = [ty |-> "str", pre |-> "h", v |-> uni]
